@@ -143,7 +143,8 @@ pub fn parse_generic_unexpected(src: &'static str, expected: &str, found: Token)
 }
 
 pub fn parse_eof(src: &'static str) -> Report {
-    let offset = src.len().checked_sub(1).unwrap_or(0);
+    // Offset of the last character (which may be longer than one byte)
+    let offset = src.char_indices().last().map_or(0, |(index, _)| index);
     miette!(
         severity = Severity::Error,
         code = "parse::unexpected_eof",
